@@ -534,4 +534,5 @@ def main() -> int:
                            "output for every case re-spelling of 10 filter templates with the canonical spelling")
     rx.attach_results(run)
     code = run.finish()
-    return 2 if sess is None else code
+    # a replayed violation (1) or a harness error (3) found by the other layers outranks "lexer not encodable" (2)
+    return code if (code in (1, 3) or sess is not None) else 2
